@@ -16,14 +16,22 @@ package main
 import (
 	"bytes"
 	"context"
+	"crypto/hmac"
+	"crypto/sha256"
+	"encoding/base64"
 	"encoding/json"
+	"errors"
 	"fmt"
+	"io"
 	"os"
 	"path/filepath"
 	"runtime"
 	"sort"
 	"strings"
 	"sync"
+	"time"
+
+	"golang.org/x/crypto/hkdf"
 
 	"verifharness/core"
 	"verifharness/mock"
@@ -132,21 +140,30 @@ var bt *batcher
 type negCase struct {
 	Kind           string   `json:"kind"`
 	SA, CA, SE, CE string   `json:",omitempty"`
+	SI, CI         string   `json:",omitempty"`
 	SM, CM         []string `json:",omitempty"`
 	SC, CC         []string `json:",omitempty"`
 }
 
-func mcfg(a, e string, ms, cs []string) *security.SecurityConfig {
-	p := peer.Policy{Auth: a, Enc: e, Methods: ms, Ciphers: cs}
-	cfg := p.Config()
-	cfg.SessionCache = nil
+func mcfg(a, e, i string, ms, cs []string) *security.SecurityConfig {
+	cfg := &security.SecurityConfig{Authentication: security.SecurityLevel(a), Encryption: security.SecurityLevel(e),
+		Integrity: security.SecurityLevel(i)}
+	for _, m := range ms {
+		cfg.AuthMethods = append(cfg.AuthMethods, security.AuthMethod(m))
+	}
+	for _, c := range cs {
+		cfg.CryptoMethods = append(cfg.CryptoMethods, security.CryptoMethod(c))
+	}
 	return cfg
+}
+func (nc negCase) run() (*security.SecurityNegotiation, error) {
+	return security.VerifNegotiateSecurity(mcfg(nc.CA, nc.CE, nc.CI, nc.CM, nc.CC), mcfg(nc.SA, nc.SE, nc.SI, nc.SM, nc.SC), false)
 }
 
 func negTerm(nc negCase) string {
-	neg, err := security.VerifNegotiateSecurity(mcfg(nc.CA, nc.CE, nc.CM, nc.CC), mcfg(nc.SA, nc.SE, nc.SM, nc.SC), false)
-	return fmt.Sprintf("(CNeg %s %s %s %s %s %s %s %s %s %s %s %s %s %s)",
-		lvlTerm(nc.SA), lvlTerm(nc.CA), lvlTerm(nc.SE), lvlTerm(nc.CE),
+	neg, err := nc.run()
+	return fmt.Sprintf("(CNeg %s %s %s %s %s %s %s %s %s %s %s %s %s %s %s %s)",
+		lvlTerm(nc.SA), lvlTerm(nc.CA), lvlTerm(nc.SE), lvlTerm(nc.CE), lvlTerm(nc.SI), lvlTerm(nc.CI),
 		methList(nc.SM), methList(nc.CM), ciphList(nc.SC), ciphList(nc.CC),
 		core.Bool(err != nil), core.Bool(neg.Authentication), core.Bool(neg.Encryption), core.Bool(neg.Enact),
 		methTerm(string(neg.NegotiatedAuth)), ciphOpt(string(neg.NegotiatedCrypto)))
@@ -166,15 +183,19 @@ func genNegotiate(c *core.Ctx) {
 		{[]string{"AES"}, []string{"AES"}},
 		{[]string{"AES"}, nil},
 	}
-	// exhaustive over 7^4 level strings per list shape, packed: one case per shape
+	// exhaustive over 7^4 Authentication/Encryption level strings x 5^2 Integrity strings per list shape, packed: one case per shape and Integrity pair
 	// carrying (levels in base 5, outcome bits) rows; NegotiatedAuth/Crypto depend
 	// on the lists only and are compared once (rows where they differ are emitted
 	// as individual cases).
 	n := 0
 	seven := append(append([]string{}, fourLevels...), "YES", "NO", "G")
 	lidx := map[string]int{"Rq": 0, "Pf": 1, "Op": 2, "Nv": 3, "Ot": 4}
+	// Integrity: the four names and what a server's response ad carries ("NO"), on both sides
+	integ5 := append(append([]string{}, fourLevels...), "NO")
 	for _, ms := range mshapes {
 		for _, cs := range cshapes {
+			for _, si := range integ5 {
+			for _, ci := range integ5 {
 			table := make([]int, 625)
 			for i := range table {
 				table[i] = -1
@@ -192,8 +213,8 @@ func genNegotiate(c *core.Ctx) {
 								}
 								return s
 							}
-							nc := negCase{"neg", g(sa), g(ca), g(se), g(ce), ms.s, ms.c, cs.s, cs.c}
-							neg, err := security.VerifNegotiateSecurity(mcfg(nc.CA, nc.CE, nc.CM, nc.CC), mcfg(nc.SA, nc.SE, nc.SM, nc.SC), false)
+							nc := negCase{"neg", g(sa), g(ca), g(se), g(ce), si, ci, ms.s, ms.c, cs.s, cs.c}
+							neg, err := nc.run()
 							c.Count("negotiateSecurity")
 							c.Evaluated(1)
 							if first {
@@ -228,8 +249,10 @@ func genNegotiate(c *core.Ctx) {
 				codes[i] = byte(v)
 			}
 			bt.flush()
-			c.AddCaseW(fmt.Sprintf("[(CNegT %s %s %s %s %s %s %s)]", methList(ms.s), methList(ms.c), ciphList(cs.s), ciphList(cs.c),
-				methTerm(m0), ciphOpt(k0), core.Hex(codes)), negCase{Kind: "neg-table", SM: ms.s, CM: ms.c, SC: cs.s, CC: cs.c}, 100)
+			c.AddCaseW(fmt.Sprintf("[(CNegT %s %s %s %s %s %s %s %s %s)]", lvlTerm(si), lvlTerm(ci), methList(ms.s), methList(ms.c), ciphList(cs.s), ciphList(cs.c),
+				methTerm(m0), ciphOpt(k0), core.Hex(codes)), negCase{Kind: "neg-table", SI: si, CI: ci, SM: ms.s, CM: ms.c, SC: cs.s, CC: cs.c}, 25)
+			}
+			}
 		}
 	}
 	// list shapes (orders, duplicates, NONE, unimplemented, unknown names) under a level sample
@@ -237,19 +260,19 @@ func genNegotiate(c *core.Ctx) {
 		{"NONE"}, {"NONE", "FS"}, {"BOGUS"}, {"BOGUS", "TOKEN", "SSL"}, {"SSL", "TOKEN", "IDTOKENS", "SCITOKENS", "KERBEROS"},
 		{"KERBEROS", "SCITOKENS", "FS", "FS"}, {"claimtobe"}}
 	clists := [][]string{nil, {"AES"}, {"3DES"}, {"BLOWFISH", "AES"}, {"AES", "BLOWFISH"}, {"3DES", "AES"}, {"AES", "3DES"}, {"AESGCM"}, {"AESGCM", "AES"}, {"aes"}}
-	lv := [][4]string{{"REQUIRED", "OPTIONAL", "REQUIRED", "OPTIONAL"}, {"PREFERRED", "OPTIONAL", "OPTIONAL", "PREFERRED"},
-		{"YES", "PREFERRED", "NO", "PREFERRED"}, {"NO", "REQUIRED", "YES", "REQUIRED"}, {"OPTIONAL", "OPTIONAL", "PREFERRED", "NEVER"}}
+	lv := [][6]string{{"REQUIRED", "OPTIONAL", "REQUIRED", "OPTIONAL", "OPTIONAL", "REQUIRED"}, {"PREFERRED", "OPTIONAL", "OPTIONAL", "PREFERRED", "REQUIRED", "PREFERRED"},
+		{"YES", "PREFERRED", "NO", "PREFERRED", "NO", "REQUIRED"}, {"NO", "REQUIRED", "YES", "REQUIRED", "NO", "NEVER"}, {"OPTIONAL", "OPTIONAL", "PREFERRED", "NEVER", "OPTIONAL", "OPTIONAL"}}
 	for _, l := range lv {
 		for _, sm := range lists {
 			for _, cm := range lists {
-				nc := negCase{"neg", l[0], l[1], l[2], l[3], sm, cm, []string{"AES"}, []string{"AES"}}
+				nc := negCase{"neg", l[0], l[1], l[2], l[3], l[4], l[5], sm, cm, []string{"AES"}, []string{"AES"}}
 				bt.add(negTerm(nc), nc)
 				c.Count("negotiateSecurity-method-lists")
 			}
 		}
 		for _, sc := range clists {
 			for _, cc := range clists {
-				nc := negCase{"neg", l[0], l[1], l[2], l[3], []string{"FS"}, []string{"FS"}, sc, cc}
+				nc := negCase{"neg", l[0], l[1], l[2], l[3], l[4], l[5], []string{"FS"}, []string{"FS"}, sc, cc}
 				bt.add(negTerm(nc), nc)
 				c.Count("negotiateSecurity-cipher-lists")
 			}
@@ -292,13 +315,59 @@ type hsSpec struct {
 	Kind string      `json:"kind"`
 	C    peer.Policy `json:"c"`
 	S    peer.Policy `json:"s"`
-	Tok  bool        `json:"tok,omitempty"` // both ends hold token material (peer.TokenWorld): TOKEN / IDTOKENS can run
+	Tok  bool        `json:"tok,omitempty"` // token world in play: the server holds the pool signing key, the client a token
+	// what the client holds when Tok is set: "" = a usable token; "none" = no token at all;
+	// "expired" = right issuer and key, exp in the past; "other-issuer" = signed for another trust
+	// domain; "other-kid" = names a signing key the server does not have.
+	CTok string `json:"ctok,omitempty"`
+	// the server holds no signing key (a usable-looking token cannot be verified)
+	SNoKey bool `json:"snokey,omitempty"`
 }
+
+// what the client's token pre-filter (hasCompatibleToken) must answer for this spec: the
+// server's response ad carries its TrustDomain but no IssuerKeys, so a fresh token of the right
+// issuer passes whatever key it names
+func (sp hsSpec) tokKind() string {
+	if !sp.Tok {
+		return "none"
+	}
+	if sp.CTok == "" {
+		return "good"
+	}
+	return sp.CTok
+}
+func (sp hsSpec) prefilterPasses() bool { k := sp.tokKind(); return k == "good" || k == "other-kid" }
+
+// the token exchange can succeed between these two endpoints
+func (sp hsSpec) tokenWorks() bool { return sp.tokKind() == "good" && !sp.SNoKey }
 
 var (
 	tokOnce  sync.Once
 	tokWorld *peer.TokenWorld
+	tokFiles = map[string]string{} // kind -> token file
 )
+
+// mintToken writes an HTCondor-format token (HS256 JWT) into the world's directory: header kid,
+// issuer, expiry relative to now, signed with the key derived from key as NewTokenWorld does.
+func mintToken(w *peer.TokenWorld, name, kid, iss string, expDelta int64, key []byte) string {
+	b64 := base64.RawURLEncoding.EncodeToString
+	hdr, _ := json.Marshal(map[string]interface{}{"alg": "HS256", "typ": "JWT", "kid": kid})
+	now := time.Now().Unix()
+	pl, _ := json.Marshal(map[string]interface{}{"sub": "alice@" + iss, "iss": iss, "iat": now - 7200, "exp": now + expDelta})
+	data := b64(hdr) + "." + b64(pl)
+	signing := append(append([]byte{}, key...), key...)
+	jwtKey := make([]byte, 32)
+	if _, err := io.ReadFull(hkdf.New(sha256.New, signing, []byte("htcondor"), []byte("master jwt")), jwtKey); err != nil {
+		panic(err)
+	}
+	mac := hmac.New(sha256.New, jwtKey)
+	mac.Write([]byte(data))
+	path := filepath.Join(w.Dir, name)
+	if err := os.WriteFile(path, []byte(data+"."+b64(mac.Sum(nil)[:32])+"\n"), 0o600); err != nil {
+		panic(err)
+	}
+	return path
+}
 
 func world() *peer.TokenWorld {
 	tokOnce.Do(func() {
@@ -307,6 +376,19 @@ func world() *peer.TokenWorld {
 			panic(err)
 		}
 		tokWorld = w
+		// the pool key as the world wrote it (HTCondor's scrambled on-disk form: XOR 0xdeadbeef)
+		raw, err := os.ReadFile(w.PoolKeyFile)
+		if err != nil {
+			panic(err)
+		}
+		db := []byte{0xde, 0xad, 0xbe, 0xef}
+		key := make([]byte, len(raw))
+		for i := range raw {
+			key[i] = raw[i] ^ db[i%4]
+		}
+		tokFiles["expired"] = mintToken(w, "expired.jwt", "POOL", w.Domain, -3600, key)
+		tokFiles["other-issuer"] = mintToken(w, "otheriss.jwt", "POOL", "elsewhere.example", 7200, key)
+		tokFiles["other-kid"] = mintToken(w, "otherkid.jwt", "NOSUCHKEY", w.Domain, 7200, []byte("another_pool_signing_key_32bytes"))
 	})
 	return tokWorld
 }
@@ -329,6 +411,9 @@ func inListCanon(x string, l []string) bool {
 
 type hsObs struct {
 	CErr, SErr, Denied       bool
+	CClass                   string // class of the client's error (classify)
+	DenialReason             bool   // the denial ad on the wire carries a non-empty ErrorString
+	CMsgs, SMsgs             int    // cleartext messages each end put on the wire
 	CHang, SHang             bool
 	CAuth, SAuth, CEnc, SEnc bool
 	CMeth, SMeth             string
@@ -366,7 +451,7 @@ func parseAd(msg []byte, skipInt bool) (map[string]string, bool) {
 		return nil, false
 	}
 	out := map[string]string{}
-	for _, k := range []string{"ReturnCode", "Authentication", "Encryption", "AuthMethods", "AuthMethodsList", "CryptoMethods", "Sid"} {
+	for _, k := range []string{"ReturnCode", "ErrorString", "Authentication", "Encryption", "AuthMethods", "AuthMethodsList", "CryptoMethods", "Sid"} {
 		if s, ok := ad.EvaluateAttrString(k); ok {
 			out[k] = s
 		}
@@ -383,6 +468,7 @@ func walkWire(tap *peer.Tap, o *hsObs) {
 	msgs, pos := tap.OrderedMessages()
 	cm, sm := msgs[0], msgs[1]
 	cpos, spos := pos[0], pos[1]
+	o.CMsgs, o.SMsgs = len(cm), len(sm)
 	if len(sm) == 0 {
 		return
 	}
@@ -393,6 +479,7 @@ func walkWire(tap *peer.Tap, o *hsObs) {
 	}
 	if rc := ad["ReturnCode"]; rc != "" && rc != "AUTHORIZED" {
 		o.Denied = true
+		o.DenialReason = ad["ErrorString"] != ""
 		return
 	}
 	if ad["Authentication"] != "YES" {
@@ -460,6 +547,41 @@ func walkWire(tap *peer.Tap, o *hsObs) {
 	}
 }
 
+// classify maps the client's handshake error to a small enum.  cedar's errors are fmt.Errorf
+// values (one typed: AuthMethodsExhaustedError), so the class is read off the fixed prefix the
+// failing step puts in front; no other part of the text is looked at.
+func classify(err error) string {
+	if err == nil {
+		return ""
+	}
+	var ex *security.AuthMethodsExhaustedError
+	if errors.As(err, &ex) {
+		return "exhausted"
+	}
+	t := err.Error()
+	switch {
+	case strings.HasPrefix(t, "security negotiation rejected by server (DENIED)"):
+		return "denied" // the server's denial ad arrived and is what the caller gets
+	case strings.HasPrefix(t, "security negotiation rejected by server"):
+		return "rejected-other"
+	case strings.HasPrefix(t, "no compatible authentication methods found"):
+		return "no-methods" // the client's own intersection / token pre-filter left nothing
+	case strings.HasPrefix(t, "server requires authentication but provides no methods"):
+		return "no-methods"
+	case strings.HasPrefix(t, "failed to parse server response"):
+		return "bare-close-1" // nothing readable came back for the client's ad
+	case strings.HasPrefix(t, "failed to parse post-auth ClassAd"):
+		return "bare-close-2" // the server went away at the end
+	case strings.HasPrefix(t, "failed to setup stream encryption"):
+		return "local-protection"
+	case strings.HasPrefix(t, "security negotiation failed"):
+		return "local-negotiation"
+	case strings.HasPrefix(t, "client requires authentication but the server declined"):
+		return "declined"
+	}
+	return "other"
+}
+
 func runHonest(sp hsSpec) hsObs {
 	ca, sa, tap := peer.Pipe()
 	var cr, sr peer.Result
@@ -468,7 +590,7 @@ func runHonest(sp hsSpec) hsObs {
 	go func() {
 		defer wg.Done()
 		scfg := sp.S.Config()
-		if sp.Tok {
+		if sp.Tok && !sp.SNoKey {
 			scfg = world().Server(scfg)
 		}
 		sr = peer.RunServer(sa, scfg)
@@ -479,8 +601,13 @@ func runHonest(sp hsSpec) hsObs {
 	go func() {
 		defer wg.Done()
 		ccfg := sp.C.Config()
-		if sp.Tok {
+		switch k := sp.tokKind(); k {
+		case "none":
+		case "good":
 			ccfg = world().Client(ccfg)
+		default:
+			ccfg = world().Client(ccfg)
+			ccfg.TokenFile = tokFiles[k]
 		}
 		cr = peer.RunClient(ca, ccfg)
 		if cr.Err != nil {
@@ -491,6 +618,7 @@ func runHonest(sp hsSpec) hsObs {
 	o := hsObs{CErr: cr.Err != nil, SErr: sr.Err != nil, CHang: cr.Hang, SHang: sr.Hang}
 	if cr.Err != nil {
 		o.CErrText = cr.Err.Error()
+		o.CClass = classify(cr.Err)
 	}
 	if sr.Err != nil {
 		o.SErrText = sr.Err.Error()
@@ -537,12 +665,29 @@ func runHonest(sp hsSpec) hsObs {
 
 // ---- the oracle: decision table written from the property text -------------
 
-func usableMethod(m string) bool {
+// a real authentication method this build implements (what the server can tell from the two lists)
+func implementedMethod(m string) bool {
 	switch m {
 	case "FS", "IDTOKENS", "TOKEN", "SCITOKENS", "SSL", "KERBEROS", "CLAIMTOBE":
-		return true // a real authentication method this build implements
+		return true
 	}
 	return false // PASSWORD (stub), NONE (no authentication), unknown names
+}
+
+// usableMethod: the method can really authenticate this client to this server in the harness
+// world.  CLAIMTOBE and FS need no credential; TOKEN / IDTOKENS need a fresh token of the
+// server's trust domain signed with a key the server holds; there are no certificates, SciTokens
+// or Kerberos tickets.
+func usableMethod(sp hsSpec) func(string) bool {
+	return func(m string) bool {
+		switch m {
+		case "FS", "CLAIMTOBE":
+			return true
+		case "TOKEN", "IDTOKENS":
+			return sp.tokenWorks()
+		}
+		return false
+	}
 }
 func mutual(a, b []string, ok func(string) bool) bool {
 	for _, x := range a {
@@ -564,40 +709,60 @@ func inList(x string, l []string) bool {
 }
 
 type verdict struct {
-	Fail, AuthRuns, EncRequired bool
+	Fail, AuthRuns, ProtRequired bool
+	// Stale: the property's table and the server's decision part ways: the server commits to
+	// authentication on the strength of the two advertised lists (a listed common implemented
+	// method) while no listed method is usable by this client (known finding
+	// c10-late-unusable-method); nothing else makes the handshake fail
+	Stale bool
 }
 
 func table(sp hsSpec) verdict {
 	req := func(a, b string) bool { return a == "REQUIRED" || b == "REQUIRED" }
 	nev := func(a, b string) bool { return a == "NEVER" || b == "NEVER" }
 	pref := func(a, b string) bool { return a == "PREFERRED" || b == "PREFERRED" }
-	mm := mutual(sp.C.Methods, sp.S.Methods, usableMethod)
+	integ := func(s string) string {
+		if s == "" {
+			return "OPTIONAL"
+		}
+		return s
+	}
+	ci, si := integ(sp.C.Integ), integ(sp.S.Integ)
+	mm := mutual(sp.C.Methods, sp.S.Methods, usableMethod(sp))
+	ml := mutual(sp.C.Methods, sp.S.Methods, implementedMethod)
 	mc := mutual(sp.C.Ciphers, sp.S.Ciphers, func(c string) bool { return c == "AES" })
 	v := verdict{}
-	authReq, encReq := req(sp.C.Auth, sp.S.Auth), req(sp.C.Enc, sp.S.Enc)
-	v.Fail = (authReq && nev(sp.C.Auth, sp.S.Auth)) || (encReq && nev(sp.C.Enc, sp.S.Enc)) || (authReq && !mm) || (encReq && !mc)
+	authReq, encReq, intReq := req(sp.C.Auth, sp.S.Auth), req(sp.C.Enc, sp.S.Enc), req(ci, si)
+	// "fails exactly when one side requires what the other forbids or a required feature has no
+	// mutually supported method": authentication needs a mutually usable method; encryption and
+	// integrity are both provided by the one cipher cedar implements (AES-256-GCM)
+	other := (authReq && nev(sp.C.Auth, sp.S.Auth)) || (encReq && nev(sp.C.Enc, sp.S.Enc)) || (intReq && nev(ci, si)) ||
+		(encReq && !mc) || (intReq && !mc)
+	v.Fail = other || (authReq && !mm)
 	v.AuthRuns = authReq || (pref(sp.C.Auth, sp.S.Auth) && !nev(sp.C.Auth, sp.S.Auth) && mm)
-	v.EncRequired = encReq
+	v.ProtRequired = encReq || intReq
+	v.Stale = !other && ml && !mm && (authReq || (pref(sp.C.Auth, sp.S.Auth) && !nev(sp.C.Auth, sp.S.Auth)))
 	return v
 }
 
 // judge returns "" when the run obeys the table, else a stable failure key + text.
 func judge(sp hsSpec, o hsObs) (string, string) {
 	v := table(sp)
-	if (sp.C.Integ == "REQUIRED" || sp.S.Integ == "REQUIRED") && !mutual(sp.C.Ciphers, sp.S.Ciphers, func(c string) bool { return c == "AES" }) && !v.Fail {
-		// Integrity is outside the property's 4^4 matrix: REQUIRED integrity without a
-		// usable cipher makes the requiring endpoint fail at the end of the handshake.
-		// Only the direct consequence is judged here: no success on a plaintext stream.
-		if sp.C.Integ == "REQUIRED" && !o.CErr {
-			return "integ-required", "client Integrity=REQUIRED succeeded without encryption"
-		}
-		if sp.S.Integ == "REQUIRED" && !o.SErr {
-			return "integ-required", "server Integrity=REQUIRED succeeded without encryption"
-		}
-		return "", ""
-	}
 	if o.CHang || o.SHang {
 		return "hang", "handshake did not terminate"
+	}
+	if v.Stale {
+		// known finding: exactly this and nothing else may happen in these cells -- both ends
+		// fail, no exchange completed, no denial (the server had already answered YES), and the
+		// client's error says that it has no method left
+		if o.CErr && o.SErr && !o.Denied && o.RanOK == "" && (o.CClass == "no-methods" || o.CClass == "exhausted") {
+			what := "a REQUIRED handshake fails without the server's denial"
+			if !v.Fail {
+				what = "a PREFERRED handshake fails instead of proceeding unauthenticated"
+			}
+			return "late-unusable-method", "the only commonly listed implemented methods are unusable for this client (token pre-filter / run-time failure) and the server had already committed to authentication: " + what + " (client error class " + o.CClass + ")"
+		}
+		return "stale-offer-unexpected", fmt.Sprintf("cell of the known finding c10-late-unusable-method behaves differently from the finding: client err=%q (%s) server err=%q denied=%v ran=%q", o.CErrText, o.CClass, o.SErrText, o.Denied, o.RanOK)
 	}
 	if v.Fail {
 		if !o.CErr || !o.SErr {
@@ -606,8 +771,14 @@ func judge(sp hsSpec, o hsObs) (string, string) {
 		if !o.Denied {
 			return "no-explicit-denial", "handshake failed but the client received no explicit denial (ReturnCode) from the server: " + o.CErrText
 		}
-		if !strings.Contains(o.CErrText, "DENIED") {
-			return "denial-not-surfaced", "the server's denial (ReturnCode=DENIED) was on the wire but the client's error does not carry it: " + o.CErrText
+		if o.CClass != "denied" {
+			return "denial-not-surfaced", "the server's denial (ReturnCode=DENIED) was on the wire but the client's error is not the server's denial: " + o.CErrText
+		}
+		if !o.DenialReason {
+			return "denial-without-reason", "the server's denial ad carries no ErrorString"
+		}
+		if o.SMsgs != 1 || o.CMsgs != 1 {
+			return "denial-not-final", fmt.Sprintf("after a denial nothing else may be exchanged: client sent %d messages, server %d", o.CMsgs, o.SMsgs)
 		}
 		return "", ""
 	}
@@ -632,12 +803,15 @@ func judge(sp hsSpec, o hsObs) (string, string) {
 		if !inListCanon(o.RanOK, sp.C.Methods) || !inListCanon(o.RanOK, sp.S.Methods) {
 			return "method-not-mutual", "method run is not in both lists: " + o.RanOK
 		}
+		if !usableMethod(sp)(o.CMeth) {
+			return "method-not-usable", "the method reported as run cannot have authenticated this client: " + o.CMeth
+		}
 	}
 	if o.CEnc != o.SEnc || o.CReal != o.SReal || o.CEnc != o.CReal {
 		return "enc-disagree", fmt.Sprintf("Encryption reported client=%v server=%v, streams really encrypted client=%v server=%v", o.CEnc, o.SEnc, o.CReal, o.SReal)
 	}
-	if v.EncRequired && !o.CReal {
-		return "enc-required", "encryption required by one side but the stream is not encrypted"
+	if v.ProtRequired && !o.CReal {
+		return "enc-required", "encryption or integrity required by one side but the stream is not protected (AES-GCM off)"
 	}
 	if !o.SidEq {
 		return "sid", "session ids differ or are empty"
@@ -673,7 +847,7 @@ func hsTerm(sp hsSpec, o hsObs) string {
 	out := 0
 	if o.CErr || o.SErr {
 		out = 2
-		if o.Denied && o.CErr && o.SErr {
+		if o.Denied && o.CClass == "denied" && o.CErr && o.SErr {
 			out = 1
 		}
 	}
@@ -683,8 +857,8 @@ func hsTerm(sp hsSpec, o hsObs) string {
 		}
 		return s
 	}
-	return fmt.Sprintf("(CHs %s %s %s %s %s %s %s %s %s %s %d %s %s %s %s %s %s %s %s %s %s)",
-		lvlTerm(sp.S.Auth), lvlTerm(sp.C.Auth), lvlTerm(sp.S.Enc), lvlTerm(sp.C.Enc), lvlTerm(integ(sp.S.Integ)), lvlTerm(integ(sp.C.Integ)),
+	return fmt.Sprintf("(CHs %s %s %s %s %s %s %s %s %s %s %s %s %d %s %s %s %s %s %s %s %s %s %s)",
+		core.Bool(sp.prefilterPasses()), core.Bool(sp.tokenWorks()), lvlTerm(sp.S.Auth), lvlTerm(sp.C.Auth), lvlTerm(sp.S.Enc), lvlTerm(sp.C.Enc), lvlTerm(integ(sp.S.Integ)), lvlTerm(integ(sp.C.Integ)),
 		methList(sp.S.Methods), methList(sp.C.Methods), ciphList(sp.S.Ciphers), ciphList(sp.C.Ciphers),
 		out, core.Bool(o.CErr), core.Bool(o.SErr),
 		core.Bool(o.CAuth), core.Bool(o.SAuth), core.Bool(o.CEnc), core.Bool(o.SEnc),
@@ -768,19 +942,28 @@ func genHonest(c *core.Ctx) error {
 			}
 		}
 	}
-	// every cell of the matrix with Integrity NEVER on one or both sides (an endpoint
-	// that wants no protection at all still takes part in the key agreement)
-	for _, ca := range fourLevels {
-		for _, sa := range fourLevels {
+	// Integrity on both sides: all 4^2 pairs x all 4^2 Encryption pairs x cipher common / none
+	// (Integrity is provided by the AES-GCM cipher) x Authentication pairs (thorough: all 16,
+	// i.e. the complete 4^6 matrix; quick: 4 per cell, rotating so that every pair occurs with
+	// every Integrity pair), method shapes rotating over the first three
+	icell := 0
+	for _, ci := range fourLevels {
+		for _, si := range fourLevels {
 			for _, ce := range fourLevels {
 				for _, se := range fourLevels {
-					for k, l := range [][2]string{{"NEVER", "NEVER"}, {"NEVER", "PREFERRED"}, {"OPTIONAL", "NEVER"}} {
-						for ci, cs := range cshapes[:2] {
-							ms := mshapes[0]
-							if (k+ci)%2 == 1 {
-								ms = mshapes[1]
+					icell++
+					for ai := 0; ai < 16; ai++ {
+						if c.Quick() && (ai+icell)%4 != 0 {
+							continue
+						}
+						ca, sa := fourLevels[ai/4], fourLevels[ai%4]
+						for k, cs := range cshapes[:2] {
+							ms := mshapes[(icell+ai+k)%3]
+							cmd := 60007
+							if (icell+ai)%5 == 0 {
+								cmd = security.NoCommand
 							}
-							specs = append(specs, hsSpec{Kind: "hs", C: peer.Policy{Auth: ca, Enc: ce, Integ: l[0], Methods: ms.C, Ciphers: cs.C, Command: 60007}, S: peer.Policy{Auth: sa, Enc: se, Integ: l[1], Methods: ms.S, Ciphers: cs.S}})
+							specs = append(specs, hsSpec{Kind: "hs", C: peer.Policy{Auth: ca, Enc: ce, Integ: ci, Methods: ms.C, Ciphers: cs.C, Command: cmd}, S: peer.Policy{Auth: sa, Enc: se, Integ: si, Methods: ms.S, Ciphers: cs.S}})
 						}
 					}
 				}
@@ -822,15 +1005,49 @@ func genHonest(c *core.Ctx) error {
 			}
 		}
 	}
-	// integrity sweep: Integrity REQUIRED on either side (enforced only at the end of the handshake)
-	for i, l := range [][2]string{{"REQUIRED", "OPTIONAL"}, {"OPTIONAL", "REQUIRED"}, {"REQUIRED", "NEVER"}, {"PREFERRED", "REQUIRED"}} {
-		for _, ce := range fourLevels {
-			for _, se := range fourLevels {
-				for _, cs := range cshapes {
-					for _, a := range []string{"REQUIRED", "OPTIONAL"} {
-						specs = append(specs, hsSpec{Kind: "hs", C: peer.Policy{Auth: a, Enc: ce, Integ: l[0], Methods: mshapes[i%3].C, Ciphers: cs.C, Command: 60007}, S: peer.Policy{Auth: "PREFERRED", Enc: se, Integ: l[1], Methods: mshapes[i%3].S, Ciphers: cs.S}})
+	// the client's token pre-filter: a client that lists TOKEN / IDTOKENS but holds no token, an
+	// expired one, one of another issuer (all withdrawn by hasCompatibleToken after the server has
+	// decided), one naming a signing key the server does not have, or a good one against a server
+	// without its signing key (both offered, the exchange fails) -- all 4^2 Authentication pairs,
+	// Encryption / Integrity / cipher rotating
+	pshapes := []mshape{
+		{"prefilter-token-only", []string{"TOKEN"}, []string{"TOKEN"}},
+		{"prefilter-idtokens-fs-fallback", []string{"IDTOKENS", "FS"}, []string{"IDTOKENS", "FS"}},
+		{"prefilter-token-password", []string{"TOKEN", "PASSWORD"}, []string{"PASSWORD", "TOKEN"}},
+		{"prefilter-srv-prefers-token", []string{"CLAIMTOBE", "TOKEN"}, []string{"TOKEN", "CLAIMTOBE"}},
+		{"prefilter-both-names", []string{"TOKEN", "IDTOKENS"}, []string{"IDTOKENS"}},
+	}
+	type tkind struct {
+		ctok   string
+		snokey bool
+	}
+	encRot := [][5]string{{"OPTIONAL", "OPTIONAL", "OPTIONAL", "OPTIONAL", "c"}, {"REQUIRED", "OPTIONAL", "PREFERRED", "OPTIONAL", "c"},
+		{"PREFERRED", "NEVER", "NEVER", "OPTIONAL", "n"}, {"OPTIONAL", "PREFERRED", "OPTIONAL", "REQUIRED", "c"}, {"NEVER", "OPTIONAL", "OPTIONAL", "PREFERRED", "n"}}
+	pi := 0
+	for _, tk := range []tkind{{"none", false}, {"expired", false}, {"other-issuer", false}, {"other-kid", false}, {"", true}} {
+		for _, ps := range pshapes {
+			for _, ca := range fourLevels {
+				for _, sa := range fourLevels {
+					pi++
+					e := encRot[pi%len(encRot)]
+					cs := cshapes[0]
+					if e[4] == "n" {
+						cs = cshapes[1]
 					}
+					specs = append(specs, hsSpec{Kind: "hs", Tok: true, CTok: tk.ctok, SNoKey: tk.snokey,
+						C: peer.Policy{Auth: ca, Enc: e[0], Integ: e[2], Methods: ps.C, Ciphers: cs.C, Command: 60007},
+						S: peer.Policy{Auth: sa, Enc: e[1], Integ: e[3], Methods: ps.S, Ciphers: cs.S}})
 				}
+			}
+		}
+	}
+	// ... and the same lists with no token world at all (Tok unset: no token, no signing key)
+	for _, ps := range pshapes[:2] {
+		for _, ca := range fourLevels {
+			for _, sa := range fourLevels {
+				specs = append(specs, hsSpec{Kind: "hs",
+					C: peer.Policy{Auth: ca, Enc: "OPTIONAL", Integ: "OPTIONAL", Methods: ps.C, Ciphers: []string{"AES"}, Command: 60007},
+					S: peer.Policy{Auth: sa, Enc: "OPTIONAL", Integ: "OPTIONAL", Methods: ps.S, Ciphers: []string{"AES"}}})
 			}
 		}
 	}
@@ -875,8 +1092,14 @@ func genHonest(c *core.Ctx) error {
 			c.Nontrivial(fmt.Sprint(sp.C.Auth, sp.S.Auth, sp.C.Enc, sp.S.Enc, sp.C.Methods, sp.S.Methods, sp.C.Ciphers, sp.S.Ciphers))
 		case o.Denied:
 			c.Count("hs-denied")
+			if integ := func(x string) bool { return x == "REQUIRED" }; integ(sp.C.Integ) || integ(sp.S.Integ) {
+				c.Count("hs-denied integrity-required-cell")
+			}
 		default:
-			c.Count("hs-failed-other")
+			c.Count("hs-failed-other class=" + o.CClass)
+		}
+		if sp.Tok && (sp.CTok != "" || sp.SNoKey) {
+			c.Count("hs-token-prefilter kind=" + sp.tokKind() + fmt.Sprintf(" nokey=%v", sp.SNoKey))
 		}
 		if len(o.Rounds) > 1 {
 			c.Count("hs-retry-rounds>1")
@@ -917,6 +1140,21 @@ func runCorpus(c *core.Ctx) {
 		c.OracleCheck()
 		c.Evaluated(1)
 		c.Count("corpus")
+		if strings.HasPrefix(filepath.Base(f), "finding-late-unusable-method-") {
+			// witnesses of the known finding (C10_token_refuted): they must keep behaving exactly as
+			// the finding says; anything else (a fix included) is reported, so that the notes,
+			// the theorem and known_findings.txt are revisited
+			var sp hsSpec
+			if json.Unmarshal(raw, &sp) != nil {
+				continue
+			}
+			if key, txt := judge(sp, runHonest(sp)); key != "late-unusable-method" {
+				c.OracleFail("c10-corpus", fmt.Sprintf("witness %s of finding c10-late-unusable-method no longer behaves as recorded: %q %s", filepath.Base(f), key, txt), json.RawMessage(raw))
+			} else {
+				c.Count("corpus finding witnessed")
+			}
+			continue
+		}
 		if err := replay(json.RawMessage(raw)); err != nil {
 			c.OracleFail("c10-corpus", fmt.Sprintf("corpus case %s: %v", filepath.Base(f), err), json.RawMessage(raw))
 		}
@@ -932,9 +1170,10 @@ func gen(c *core.Ctx) error {
 		return err
 	}
 	bt.flush()
-	c.Rule("every run of real client x real server must obey the decision table written from the property text (fail iff REQUIRED meets NEVER or a REQUIRED feature has no mutual usable method, then explicit denial; else success, authentication runs iff required or preferred-not-forbidden-with-mutual-method, encryption on when required, both ends agree on auth/enc/method/sid/key, a message each way works); every negotiateSecurity/bitmask result and every handshake outcome must equal Model/Negotiate.v")
+	c.Rule("every run of real client x real server must obey the decision table written from the property text over the three features Authentication / Encryption / Integrity (fail iff REQUIRED meets NEVER or a REQUIRED feature has no mutually usable method -- for the token family: the client holds a usable token; for Encryption and Integrity: AES -- and then: the server's denial ad with a reason is the only thing the server sends, and the client's error is that denial; else success, authentication runs iff required or preferred-not-forbidden-with-mutual-usable-method, AES-GCM on when Encryption or Integrity is required, both ends agree on auth/enc/method/sid/key, a message each way works); in the stale-offer cells of finding c10-late-unusable-method exactly the recorded behaviour; every negotiateSecurity/bitmask result and every handshake outcome must equal Model/Negotiate.v")
 	c.Exhaustive(!c.Quick())
-	c.Assume("authentication sub-protocols exercised: CLAIMTOBE and FS (succeed), PASSWORD (unimplemented, fails); token pre-filter not exercised")
+	c.Assume("negotiateSecurity is run exhaustively over (4 names + YES + NO + garbage)^4 Authentication/Encryption strings x (4 names + NO)^2 Integrity strings x method found/none x cipher found/none on every tier; real handshakes: quick runs a rotating quarter of the 4^6 Integrity block and half of the token shapes, thorough all of them")
+	c.Assume("authentication sub-protocols exercised: CLAIMTOBE, FS, TOKEN/IDTOKENS with a usable token (succeed), TOKEN/IDTOKENS with no / an expired / a foreign-issuer token (withdrawn by the client's pre-filter), with a token naming an unknown signing key or against a server without its key (offered, fail at run time), PASSWORD (unimplemented, fails); SSL, SCITOKENS, KERBEROS are never the method selected (no certificates / KDC offline)")
 	return nil
 }
 
